@@ -328,7 +328,7 @@ structure LineOut (V : Type) where
 
 /-- `Field.line(p1, p2, n)` + `Line.__init__`.  On a 1-d mesh `Mesh.line` yields bare numbers
 (`array2tuple` unwraps arrays of size 1), the point table is 1-d and `points[0, :]` in
-`Line.__init__` raises `IndexError` (finding D23). -/
+`Line.__init__` raises `IndexError` (finding D43). -/
 def VF.line (f : VF V) (p1 p2 : List Rat) (n : Nat) : M (LineOut V) :=
   match meshLine f.mesh p1 p2 n with
   | .error e => .error e
